@@ -44,6 +44,23 @@ template<class T,class X,class F,class G> static void elem_op(vf::Ctx& c,const X
 	if(!same_obj<X,T>(a,b,&w)) c.fail(std::string(QN)+":"+name+":scalar-operand-is-an-element-of-the-destination:differs-from-the-same-call-with-a-copy",shw<X,T>(b)+" (aliased, component "+std::to_string(w)+")",shw<X,T>(a)+" (copy)");
 }
 
+
+// scalar of another arithmetic type (the compound operators are templates over the scalar type U): m op= U(k) must be m op= T(k)
+template<class T,class U,class X> static void mixed_scalar(vf::Ctx& c,const X& x0,const std::string& name,const char* un,int kval){
+	const U ku=(U)kval; const T kt=(T)kval; int w=0;
+	{ X a=x0; a+=ku; X b=x0; b+=kt; if(!same_obj<X,T>(a,b,&w)) c.fail(std::string(QN)+":"+name+"+=("+un+" scalar):differs-from-the-same-value-as-element-type",shw<X,T>(a),shw<X,T>(b)); }
+	{ X a=x0; a-=ku; X b=x0; b-=kt; if(!same_obj<X,T>(a,b,&w)) c.fail(std::string(QN)+":"+name+"-=("+un+" scalar):differs-from-the-same-value-as-element-type",shw<X,T>(a),shw<X,T>(b)); }
+	{ X a=x0; a*=ku; X b=x0; b*=kt; if(!same_obj<X,T>(a,b,&w)) c.fail(std::string(QN)+":"+name+"*=("+un+" scalar):differs-from-the-same-value-as-element-type",shw<X,T>(a),shw<X,T>(b)); }
+	{ X a=x0; a/=ku; X b=x0; b/=kt; if(!same_obj<X,T>(a,b,&w)) c.fail(std::string(QN)+":"+name+"/=("+un+" scalar):differs-from-the-same-value-as-element-type",shw<X,T>(a),shw<X,T>(b)); }
+}
+template<class T,class X> static void mixed_all(vf::Ctx& c,const X& x0,const std::string& name,u32 sel){
+	const int k=2+(int)(sel%7);
+	mixed_scalar<T,unsigned,X>(c,x0,name,"unsigned",k); mixed_scalar<T,int,X>(c,x0,name,"int",k); mixed_scalar<T,short,X>(c,x0,name,"short",k); mixed_scalar<T,unsigned char,X>(c,x0,name,"uint8",k);
+	mixed_scalar<T,long long,X>(c,x0,name,"int64",k);
+	if constexpr(std::is_floating_point<T>::value){ mixed_scalar<T,float,X>(c,x0,name,"float",k); mixed_scalar<T,double,X>(c,x0,name,"double",k); }
+}
+// compound assignment / pre-increment must return the object itself (chained use: (v *= 2) += w modifies v)
+#define RET_SELF(NAME,OBJ,EXPR) do{ auto&& r_=(EXPR); if((const void*)&r_!=(const void*)&(OBJ)) c.fail(std::string(QN)+":"+NAME+":compound-operator-does-not-return-the-object-itself","a temporary / another object","*this"); }while(0)
 // ------------------------------------------------------------------------------------------------ vectors (C01)
 #if ALIAS_PROP==1
 template<class T,int L> static void vec_ops(const In<T>& in,vf::Ctx& c){
@@ -52,6 +69,9 @@ template<class T,int L> static void vec_ops(const In<T>& in,vf::Ctx& c){
 	self_op<T>(c,x,p+"+=",[](V& d,const V& s){ d+=s; }); self_op<T>(c,x,p+"-=",[](V& d,const V& s){ d-=s; }); self_op<T>(c,x,p+"*=",[](V& d,const V& s){ d*=s; }); self_op<T>(c,x,p+"/=",[](V& d,const V& s){ d/=s; });
 	self_op<T>(c,x,p+"=",[](V& d,const V& s){ d=s; });
 	self_op<T>(c,x,p+"v=v+v",[](V& d,const V& s){ d=d+s; }); self_op<T>(c,x,p+"v=v*v",[](V& d,const V& s){ d=s*d; }); self_op<T>(c,x,p+"v=-v",[](V& d,const V& s){ d=-s; });
+	{ V a=x; const T s=in.v[5]; RET_SELF(p+"+=vec",a,a+=x); RET_SELF(p+"-=vec",a,a-=x); RET_SELF(p+"*=vec",a,a*=x); RET_SELF(p+"/=vec",a,a/=x); RET_SELF(p+"+=scalar",a,a+=s); RET_SELF(p+"-=scalar",a,a-=s); RET_SELF(p+"*=scalar",a,a*=s); RET_SELF(p+"/=scalar",a,a/=s); RET_SELF(p+"=",a,a=x); RET_SELF(p+"++v",a,++a); RET_SELF(p+"--v",a,--a);
+	  if constexpr(!std::is_floating_point<T>::value){ V b=x; const T m=(T)3; RET_SELF(p+"%=vec",b,b%=x); RET_SELF(p+"&=vec",b,b&=x); RET_SELF(p+"|=vec",b,b|=x); RET_SELF(p+"^=vec",b,b^=x); RET_SELF(p+"<<=scalar",b,b<<=m); RET_SELF(p+">>=scalar",b,b>>=m); RET_SELF(p+"%=scalar",b,b%=m); RET_SELF(p+"&=scalar",b,b&=m); } }
+	mixed_all<T>(c,x,p,in.sel);
 	auto el=[e](V& v)->T&{ return v[e]; };
 	elem_op<T>(c,x,p+"+=scalar",[](V& d,const T& s){ d+=s; },el); elem_op<T>(c,x,p+"-=scalar",[](V& d,const T& s){ d-=s; },el); elem_op<T>(c,x,p+"*=scalar",[](V& d,const T& s){ d*=s; },el); elem_op<T>(c,x,p+"/=scalar",[](V& d,const T& s){ d/=s; },el);
 	elem_op<T>(c,x,p+"v=v*scalar",[](V& d,const T& s){ d=d*s; },el); elem_op<T>(c,x,p+"v=scalar/v",[](V& d,const T& s){ d=s/d; },el);
@@ -81,6 +101,7 @@ template<class T,int C,int R> static void mat_ops(const In<T>& in,vf::Ctx& c){
 	const std::string p="mat"+std::to_string(C)+"x"+std::to_string(R)+":"; const int ei=(int)(in.sel%C), ej=(int)((in.sel/4)%R);
 	self_op<T>(c,x,p+"+=",[](M& d,const M& s){ d+=s; }); self_op<T>(c,x,p+"-=",[](M& d,const M& s){ d-=s; }); self_op<T>(c,x,p+"=",[](M& d,const M& s){ d=s; });
 	self_op<T>(c,x,p+"m=m+m",[](M& d,const M& s){ d=d+s; }); self_op<T>(c,x,p+"m=-m",[](M& d,const M& s){ d=-s; });
+	mixed_all<T>(c,x,p,in.sel);
 	auto el=[ei,ej](M& m)->T&{ return m[ei][ej]; };
 	elem_op<T>(c,x,p+"+=scalar",[](M& d,const T& s){ d+=s; },el); elem_op<T>(c,x,p+"-=scalar",[](M& d,const T& s){ d-=s; },el); elem_op<T>(c,x,p+"*=scalar",[](M& d,const T& s){ d*=s; },el); elem_op<T>(c,x,p+"/=scalar",[](M& d,const T& s){ d/=s; },el);
 	elem_op<T>(c,x,p+"m=m*scalar",[](M& d,const T& s){ d=d*s; },el); elem_op<T>(c,x,p+"m=scalar*m",[](M& d,const T& s){ d=s*d; },el); elem_op<T>(c,x,p+"m=m/scalar",[](M& d,const T& s){ d=d/s; },el);
@@ -111,6 +132,7 @@ template<class T> static void qua_ops(const In<T>& in,vf::Ctx& c){
 	self_op<T>(c,x,"quat:q=q*q",[](Qt& d,const Qt& s){ d=d*s; }); self_op<T>(c,x,"quat:q=conjugate(q)",[](Qt& d,const Qt& s){ d=glm::conjugate(s); }); self_op<T>(c,x,"quat:q=inverse(q)",[](Qt& d,const Qt& s){ d=glm::inverse(s); });
 	self_op<T>(c,x,"quat:q=normalize(q)",[](Qt& d,const Qt& s){ d=glm::normalize(s); }); self_op<T>(c,x,"quat:q=cross(q,q)",[](Qt& d,const Qt& s){ d=glm::cross(d,s); });
 	self_op<T>(c,x,"quat:q=mix(q,q,t)",[](Qt& d,const Qt& s){ d=glm::mix(d,s,(T)0.25); }); self_op<T>(c,x,"quat:q=slerp(q,q,t)",[](Qt& d,const Qt& s){ d=glm::slerp(d,s,(T)0.25); });
+	{ Qt a=x; const T s=in.v[5]; RET_SELF("quat:*=quat",a,a*=x); RET_SELF("quat:+=quat",a,a+=x); RET_SELF("quat:-=quat",a,a-=x); RET_SELF("quat:*=scalar",a,a*=s); RET_SELF("quat:/=scalar",a,a/=s); RET_SELF("quat:=",a,a=x); }
 	auto el=[e](Qt& q)->T&{ return q[e]; };
 	elem_op<T>(c,x,"quat:*=scalar",[](Qt& d,const T& s){ d*=s; },el); elem_op<T>(c,x,"quat:/=scalar",[](Qt& d,const T& s){ d/=s; },el); elem_op<T>(c,x,"quat:q=q*scalar",[](Qt& d,const T& s){ d=d*s; },el); elem_op<T>(c,x,"quat:q=q/scalar",[](Qt& d,const T& s){ d=d/s; },el);
 	// rotating the quaternion's own vector part / a vector by a quaternion built from it
